@@ -728,3 +728,30 @@ Theorem shared_queryable_crosses_requests :
   /\ request_select false w_trace 1 false w_rows None w_fetch None 3 1 = SelOk (select_series false w_rows w_fetch).
 Proof. exact shared_queryable_refuted. Qed.
 Print Assumptions shared_queryable_crosses_requests.
+
+(* requests whose CLIENT goes away (net/http cancels the request's context while its goroutine still runs): for every
+   interleaving (wfc: a request may end at any time after its set-up, once) the contexts the model's queriers look at are
+   given by a function of the trace alone, in which no queryable and no querier occurs: every look of r sees ctx_r, done
+   exactly when r itself ended before *)
+Theorem overlapping_requests_follow_the_trace_specification : forall tr,
+  wfc tr = true -> PromReq.run false rs_init tr = spec_looks tr.
+Proof. exact run_is_spec_looks. Qed.
+Print Assumptions overlapping_requests_follow_the_trace_specification.
+
+(* hence a row stream of a request is cut by a context only when that request itself has ended (its client went away):
+   never by the end of another request *)
+Theorem rows_are_cut_only_by_the_requests_own_end : forall tr,
+  wfc tr = true ->
+  forall o, List.In o (PromReq.run false rs_init tr) ->
+            snd (fst o) = Some (fst (fst o)) /\ (snd o = true -> List.In (EEnd (fst (fst o))) tr).
+Proof. exact cut_only_by_own_end. Qed.
+Print Assumptions rows_are_cut_only_by_the_requests_own_end.
+
+(* witness: the client of request 0 goes away while request 1 reads. Code: only request 0 sees a done context.
+   Shared variant: request 1 reads under request 0's context and is cut with it *)
+Theorem client_going_away_touches_no_other_request :
+  wfc w_trace_client_gone = true
+  /\ PromReq.run false rs_init w_trace_client_gone = [(0, Some 0, false); (1, Some 1, false); (0, Some 0, true); (1, Some 1, false)]%N
+  /\ PromReq.run true rs_init w_trace_client_gone = [(0, Some 0, false); (1, Some 0, false); (0, Some 0, true); (1, Some 0, true)]%N.
+Proof. exact client_gone_witness. Qed.
+Print Assumptions client_going_away_touches_no_other_request.
